@@ -25,8 +25,12 @@
 (*         observables); a run ends with its panic line                    *)
 (* viol accumulates <<line, rule, context>> (context = the call, "+u" for  *)
 (* a run that does not keep the discipline), cov counts how often each     *)
-(* rule was applicable.  Report prints the verdict in the state after the  *)
-(* last line; TraceAccepted checks that every line was consumed.           *)
+(* rule was applicable.  After the first line of a run whose observables   *)
+(* differ from the specification's (or that panicked) the specification's  *)
+(* state no longer mirrors the object: the rest of the run is consequence  *)
+(* and is skipped (all rules broken on that first line are reported).      *)
+(* Report prints the verdict in the state after the last line;             *)
+(* TraceAccepted checks that every line was consumed.                      *)
 (***************************************************************************)
 EXTENDS Segments, TLC, TLCExt, Json, IOUtils
 
@@ -39,22 +43,25 @@ VARIABLES
     st,     \* the specification's state of the current run
     prev,   \* the observation recorded on the preceding line of the run
     hole,   \* absolute offset of the probe taken back by the last pop (-1 once something was enqueued again)
+    bad,    \* a line of this run showed other observables than the specification's (or panicked): the
+            \* specification no longer mirrors the object, the rest of the run is consequence and is not judged
     viol, cov
-vars == <<l, runs, st, prev, hole, viol, cov>>
+vars == <<l, runs, st, prev, hole, bad, viol, cov>>
 
 Init ==
     /\ l = 1 /\ runs = 0
-    /\ st = StNew(0) /\ prev = Obs(StNew(0)) /\ hole = -1
+    /\ st = StNew(0) /\ prev = Obs(StNew(0)) /\ hole = -1 /\ bad = FALSE
     /\ viol = {} /\ cov = [r \in RuleNames |-> 0]
 
 OpName(k) ==
     CASE k = "n" -> "new" [] k = "e" -> "enqueue" [] k = "s" -> "send" [] k = "a" -> "ack"
       [] k = "p" -> "pop" [] k = "x" -> "pop_expired" [] k = "c" -> "pipe" [] OTHER -> k
 
-Judge(rs, ctx) ==
+Judge(rs, ctx, fresh, diverged) ==
     /\ viol' = IF Cardinality(viol) >= 60 THEN viol
                ELSE viol \cup { <<l, b, ctx>> : b \in Broken(rs) }
     /\ cov' = LET c == Covered(rs) IN [x \in RuleNames |-> cov[x] + IF x \in c THEN 1 ELSE 0]
+    /\ bad' = ((~fresh /\ bad) \/ diverged)
 
 NewLine(r) ==
     \E s0 \in {StNew(r.op[2])} :
@@ -63,7 +70,7 @@ NewLine(r) ==
         /\ prev' = (IF r.panic = "" THEN r.obs ELSE Obs(s0))
         /\ hole' = -1
         /\ Judge({ <<"Segs.NoPanic", TRUE, r.panic = "">>,
-                   <<"Segs.ObsAgrees", r.panic = "", r.obs = Obs(s0)>> }, "new")
+                   <<"Segs.ObsAgrees", r.panic = "", r.obs = Obs(s0)>> }, "new", TRUE, r.panic # "" \/ r.obs # Obs(s0))
 
 CallLine(r) ==
     \E a \in {Apply(st, r.op)} : \E e \in {Obs(a.st)} :
@@ -73,12 +80,15 @@ CallLine(r) ==
         /\ hole' = HoleAfter(st, hole, r.op)
         /\ Judge(RulesX(st, [prev |-> prev, hole |-> hole, disc |-> r.disc = 1], r.op,
                         [ret |-> r.ret, obs |-> r.obs, panic |-> r.panic], a, e),
-                 OpName(r.op[1]) \o (IF r.disc = 1 THEN "" ELSE "+u"))
+                 OpName(r.op[1]) \o (IF r.disc = 1 THEN "" ELSE "+u"), FALSE, r.panic # "" \/ r.obs # e)
+
+(* the rest of a run after its first broken rule *)
+SkipLine == UNCHANGED <<runs, st, prev, hole, bad, viol, cov>>
 
 Next ==
     /\ l <= N
     /\ l' = l + 1
-    /\ LET r == Rec[l] IN IF r.op[1] = "n" THEN NewLine(r) ELSE CallLine(r)
+    /\ LET r == Rec[l] IN IF r.op[1] = "n" THEN NewLine(r) ELSE IF bad THEN SkipLine ELSE CallLine(r)
 
 Spec == Init /\ [][Next]_vars
 
